@@ -12,7 +12,9 @@ RULE = ('random top-level sequences (1-28 ops) of add_processor / remove_process
         'classes forming a random DAG under a fresh root (diamonds and multi-base classes '
         'included), 1-9 processor instances (several per class, so replacements are frequent), '
         'priorities from {-2..2} given as class attribute (own or inherited), instance attribute '
-        'or explicit argument (0 and negatives included, ties likely), handler kinds '
+        'or explicit argument (0 and negatives included, ties likely), in half of the cases 1-3 '
+        'processor bodies run scripts of 1-3 add_processor / remove_processor / get_processor '
+        'actions on their world during every frame, handler kinds '
         'none / on_add / on_remove / both / unrelated event with renamed callbacks, every callback '
         '(on_add, on_remove, process) re-entrantly reads world.processors and get_processor of '
         'every class (read-only), dt dyadic; '
@@ -28,8 +30,8 @@ TRUSTED = [
     'issubclass / __subclasses__',
 ]
 ASSUMPTIONS = [
-    'operations are issued at top level (a processor does not mutate the processor list from '
-    'inside process())',
+    'processor bodies may add / remove / query processors; world.process() is not re-entered '
+    'from inside a processor; on_add / on_remove callbacks only read',
     'nobody but add_processor assigns p.priority while p is registered; one World per trace',
     'World.clear() is not part of the traces (its interaction with postponed callbacks is the '
     'known finding K1 of C02)',
@@ -82,6 +84,20 @@ def gen_case(rng, big=False):
     for _ in range(ni):
         insts.append(dict(cls=rng.randrange(len(classes)),
                           iprio=rng.choice(PRIOS) if rng.random() < 0.3 else None))
+    # processor bodies that change the processor tables while the frame runs
+    if rng.random() < 0.5:
+        for d in rng.sample(insts, min(len(insts), rng.randint(1, 3))):
+            sc = []
+            for _ in range(rng.randint(1, 3)):
+                r = rng.random()
+                if r < 0.55:
+                    sc.append(['add', rng.randrange(ni),
+                               rng.choice(PRIOS) if rng.random() < 0.75 else None])
+                elif r < 0.85:
+                    sc.append(['remove', rng.randrange(len(classes))])
+                else:
+                    sc.append(['get', rng.randrange(len(classes))])
+            d['script'] = sc
     ops = []
     nops = rng.randint(1, 60 if big else 28)
     burst = rng.choice([0, 0, 2, 3, 4])
@@ -129,7 +145,10 @@ def build(case, desper, log, ctx=None):
 
     def process(self, dt=1):
         look(self)
-        log.append(['run', self.serial, dt])
+        body = dict(pid=self.serial, dt=dt, acts=[])
+        ctx.setdefault('frame', []).append(body)
+        for a in self.script:
+            body['acts'].append(ctx['perform'](a))
         look(self)
 
     def cb(kind):
@@ -160,6 +179,7 @@ def build(case, desper, log, ctx=None):
     for k, d in enumerate(case['insts']):
         p = classes[d['cls']]()
         p.serial = k
+        p.script = d.get('script', [])
         if d['iprio'] is not None:
             p.priority = d['iprio']
         insts.append(p)
@@ -190,9 +210,10 @@ def run(case):
     hier = [[j for j, cj in enumerate(classes) if issubclass(ci, cj)] for ci in classes]
     w = desper.World()
     ctx['world'] = w
-    out = []
-    for o in case['ops']:
-        del log[:]
+
+    def perform(o):
+        """one add / remove / get / enable, at top level or from inside a processor body"""
+        n0 = len(log)
         exn, ret, flag, cur = 0, None, True, 0
         try:
             if o[0] == 'add':
@@ -209,15 +230,33 @@ def run(case):
             elif o[0] == 'get':
                 r = w.get_processor(classes[o[1]])
                 ret = None if r is None else ident.get(id(r), -1)
-            elif o[0] == 'process':
-                w.process(o[1] / 8)
             elif o[0] == 'enable':
                 w.dispatch_enabled = o[1]
         except Exception as ex:
             exn = exn_code(ex)
         procs = [ident.get(id(p), -1) for p in w.processors]
-        out.append(dict(exn=exn, ret=ret, log=[list(e) for e in log], procs=procs,
-                        flag=bool(flag), cur=cur))
+        mine = [list(e) for e in log[n0:]]
+        del log[n0:]
+        return dict(op=list(o), exn=exn, ret=ret, log=mine, procs=procs, flag=bool(flag), cur=cur)
+    ctx['perform'] = perform
+
+    out = []
+    for o in case['ops']:
+        del log[:]
+        if o[0] == 'process':
+            ctx['frame'] = []
+            exn = 0
+            try:
+                w.process(o[1] / 8)
+            except Exception as ex:
+                exn = exn_code(ex)
+            procs = [ident.get(id(p), -1) for p in w.processors]
+            out.append(dict(exn=exn, ret=None, log=[list(e) for e in log], procs=procs,
+                            flag=True, cur=0, bodies=ctx['frame']))
+        else:
+            ob = perform(o)
+            del ob['op']
+            out.append(ob)
     return dict(obs=out, facts=facts, hier=hier)
 
 
@@ -238,7 +277,33 @@ def enc_ev(e):
 
 
 BAD = ('{| c_hier := []; c_insts := []; c_trace := '
-       '[(OEnable true, Build_obs 9 None [] [] false)] |}')
+       '[Step (OEnable true) (Build_obs 9 None [] [] false)] |}')
+
+
+def d8(dt):
+    v = dt * 8
+    try:
+        return z(int(v)) if v == int(v) else '(-7777)'
+    except (TypeError, ValueError, OverflowError):
+        return '(-7777)'
+
+
+def enc_op(o, cur):
+    if o[0] == 'add':
+        if not isinstance(cur, int) or isinstance(cur, bool):
+            cur = -7777
+        return '(OAdd %s %s %s)' % (z(o[1]), opt(None if o[2] is None else z(o[2])), z(cur))
+    if o[0] == 'remove':
+        return '(ORemove %s)' % z(o[1])
+    if o[0] == 'get':
+        return '(OGet %s)' % z(o[1])
+    return '(OEnable %s)' % b(o[1])
+
+
+def enc_obs(ob):
+    return '(Build_obs %s %s %s %s %s)' % (
+        z(ob['exn']), opt(None if ob['ret'] is None else z(ob['ret'])),
+        lst([enc_ev(e) for e in ob['log']]), lst([z(p) for p in ob['procs']]), b(ob['flag']))
 
 
 def encode(case, trace):
@@ -250,23 +315,14 @@ def encode(case, trace):
                  for k, (d, f) in enumerate(zip(case['insts'], trace['facts']))])
     items = []
     for o, ob in zip(case['ops'], trace['obs']):
-        if o[0] == 'add':
-            cur = ob['cur']
-            if not isinstance(cur, int) or isinstance(cur, bool):
-                cur = -7777
-            op = '(OAdd %s %s %s)' % (z(o[1]), opt(None if o[2] is None else z(o[2])), z(cur))
-        elif o[0] == 'remove':
-            op = '(ORemove %s)' % z(o[1])
-        elif o[0] == 'get':
-            op = '(OGet %s)' % z(o[1])
-        elif o[0] == 'process':
-            op = '(OProcess %s)' % z(o[1])
+        if o[0] == 'process':
+            bodies = lst(['(Build_body %s %s %s)' % (
+                z(bd['pid']), d8(bd['dt']),
+                lst(['(%s, %s)' % (enc_op(a['op'], a['cur']), enc_obs(a)) for a in bd['acts']]))
+                for bd in ob.get('bodies', [])])
+            items.append('(Frame %s %s %s)' % (z(o[1]), bodies, enc_obs(ob)))
         else:
-            op = '(OEnable %s)' % b(o[1])
-        items.append('(%s, Build_obs %s %s %s %s %s)' % (
-            op, z(ob['exn']), opt(None if ob['ret'] is None else z(ob['ret'])),
-            lst([enc_ev(e) for e in ob['log']]), lst([z(p) for p in ob['procs']]),
-            b(ob['flag'])))
+            items.append('(Step %s %s)' % (enc_op(o, ob['cur']), enc_obs(ob)))
     return '{| c_hier := %s; c_insts := %s; c_trace := %s |}' % (hier, insts, lst(items))
 
 
@@ -275,7 +331,7 @@ def nontrivial(case, trace):
     if 'obs' not in trace:
         return False
     changes = sum(1 for o in case['ops'] if o[0] in ('add', 'remove'))
-    ran = max([len(ob['log']) for o, ob in zip(case['ops'], trace['obs'])
+    ran = max([len(ob.get('bodies', [])) for o, ob in zip(case['ops'], trace['obs'])
                if o[0] == 'process'] or [0])
     return changes >= 3 and ran >= 2
 
@@ -285,7 +341,9 @@ def stats(cases, traces):
                       ties_in_a_frame=0, frames_with_2plus=0, add_while_disabled=0,
                       remove_while_disabled=0, nonexact_answers=0, none_answers=0,
                       releases_with_callbacks=0, instance_level_priority=0,
-                      class_level_priority=0, diamonds=0)
+                      class_level_priority=0, diamonds=0, frames_with_mutating_bodies=0,
+                      frames_where_a_processor_lost_its_turn=0,
+                      frames_where_a_processor_joined=0)
     for c, t in zip(cases, traces):
         if 'obs' not in t:
             continue
@@ -293,8 +351,10 @@ def stats(cases, traces):
             d['diamonds'] += 1
         enabled = True
         prio = {}
+        before = None
         for o, ob in zip(c['ops'], t['obs']):
             ops[o[0]] = ops.get(o[0], 0) + 1
+            start, before = before, ob['procs']
             if o[0] == 'add':
                 if o[2] is None:
                     d['explicit_none'] += 1
@@ -320,6 +380,19 @@ def stats(cases, traces):
                 if o[0] == 'remove' and not enabled:
                     d['remove_while_disabled'] += 1
             elif o[0] == 'process':
+                bodies = ob.get('bodies', [])
+                if any(bd['acts'] for bd in bodies):
+                    d['frames_with_mutating_bodies'] += 1
+                    ran = [bd['pid'] for bd in bodies]
+                    if start is not None and len(ran) < len(start):
+                        d['frames_where_a_processor_lost_its_turn'] += 1
+                    if any(a['op'][0] == 'add' and a['op'][1] not in (start or [])
+                           for bd in bodies for a in bd['acts']):
+                        d['frames_where_a_processor_joined'] += 1
+                    for bd in bodies:
+                        for a in bd['acts']:
+                            if a['op'][0] == 'add':
+                                prio[a['op'][1]] = a['cur'] if a['op'][2] is None else a['op'][2]
                 ps = [prio.get(p) for p in ob['procs']]
                 if len(ps) >= 2:
                     d['frames_with_2plus'] += 1
